@@ -8,6 +8,7 @@ pub mod locked;
 pub mod monitors;
 pub mod nfids;
 pub mod node;
+pub mod pools;
 pub mod programs;
 pub mod steps;
 pub mod transport;
